@@ -34,17 +34,21 @@ DoOutputImplementation(uint32 maxBytes)
 {
    TCHECKPOINT;
 
-   const Message * msg = _sendMsgRef();
-   if (msg == NULL)
+   // Note:  this is a loop rather than tail-recursion, so that a transport that accepts only
+   // a few bytes per Write() call can't make us recurse once per call and overflow the stack.
+   io_status_t totalBytesWritten;
+   while(true)
    {
-      // try to get the next message from our queue
-      if (PopNextOutgoingMessage(_sendMsgRef).IsError()) _sendMsgRef.Reset();
-      msg = _sendMsgRef();
-      _sendBufLength = _sendBufIndex = _sendBufByteOffset = -1;
-   }
+      const Message * msg = _sendMsgRef();
+      if (msg == NULL)
+      {
+         // try to get the next message from our queue
+         if (PopNextOutgoingMessage(_sendMsgRef).IsError()) _sendMsgRef.Reset();
+         msg = _sendMsgRef();
+         _sendBufLength = _sendBufIndex = _sendBufByteOffset = -1;
+      }
+      if (msg == NULL) break;
 
-   if (msg)
-   {
       if ((_sendBufByteOffset < 0)||(_sendBufByteOffset >= _sendBufLength))
       {
          // Try to get the next field from our message
@@ -57,45 +61,44 @@ DoOutputImplementation(uint32 maxBytes)
          else
          {
             _sendMsgRef.Reset();  // no more data available?  Go to the next message then.
-            return DoOutputImplementation(maxBytes);
+            continue;
          }
       }
 
-      // At this point we are guaranteed that (_sendBufByteOffset >= 0 or else we would have returned, above
-      if (_sendBufByteOffset < _sendBufLength)
+      // At this point we are guaranteed that (_sendBufByteOffset >= 0 or else we would have continued, above
+      if (_sendBufByteOffset >= _sendBufLength) break;
+
+      const uint32 mtuSize = GetMaximumPacketSize();
+      if (mtuSize > 0)
       {
-         const uint32 mtuSize = GetMaximumPacketSize();
-         if (mtuSize > 0)
-         {
-            // UDP mode -- send each data chunk as its own UDP packet
-            PacketDataIO * pdio = GetPacketDataIO();  // guaranteed non-NULL because (mtuSize > 0)
-            const uint32 sendSize = muscleMin((uint32)_sendBufLength, mtuSize);
-            IPAddressAndPort packetDestIAP;
-            const io_status_t bytesWritten = msg->FindFlat(PR_NAME_PACKET_REMOTE_LOCATION, packetDestIAP).IsOK()
-                                           ? pdio->WriteTo(_sendBuf, sendSize, packetDestIAP)
-                                           : pdio->Write(  _sendBuf, sendSize);
-            MRETURN_ON_ERROR(bytesWritten);
-            if (bytesWritten.GetByteCount() > 0)
-            {
-               _sendBufByteOffset = _sendBufLength;  // We don't support partial sends for UDP style, so pretend the whole thing was sent
-               return bytesWritten + DoOutputImplementation((maxBytes>(uint32)bytesWritten.GetByteCount())?(maxBytes-bytesWritten.GetByteCount()):0);
-            }
-         }
-         else
-         {
-            // TCP mode -- send as much as we can of the current data block
-            const io_status_t bytesWritten = GetDataIO()() ? GetDataIO()()->Write(&((char *)_sendBuf)[_sendBufByteOffset], muscleMin(maxBytes, (uint32) (_sendBufLength-_sendBufByteOffset))) : io_status_t(B_BAD_OBJECT);
-            MRETURN_ON_ERROR(bytesWritten);
-            if (bytesWritten.GetByteCount() > 0)
-            {
-               _sendBufByteOffset += bytesWritten.GetByteCount();
-               return bytesWritten + DoOutputImplementation(maxBytes-bytesWritten.GetByteCount());
-            }
-         }
+         // UDP mode -- send each data chunk as its own UDP packet
+         PacketDataIO * pdio = GetPacketDataIO();  // guaranteed non-NULL because (mtuSize > 0)
+         const uint32 sendSize = muscleMin((uint32)_sendBufLength, mtuSize);
+         IPAddressAndPort packetDestIAP;
+         const io_status_t bytesWritten = msg->FindFlat(PR_NAME_PACKET_REMOTE_LOCATION, packetDestIAP).IsOK()
+                                        ? pdio->WriteTo(_sendBuf, sendSize, packetDestIAP)
+                                        : pdio->Write(  _sendBuf, sendSize);
+         MRETURN_ON_ERROR(bytesWritten);
+         if (bytesWritten.GetByteCount() <= 0) break;
+
+         _sendBufByteOffset = _sendBufLength;  // We don't support partial sends for UDP style, so pretend the whole thing was sent
+         totalBytesWritten += bytesWritten;
+         maxBytes = (maxBytes>(uint32)bytesWritten.GetByteCount())?(maxBytes-bytesWritten.GetByteCount()):0;
+      }
+      else
+      {
+         // TCP mode -- send as much as we can of the current data block
+         const io_status_t bytesWritten = GetDataIO()() ? GetDataIO()()->Write(&((char *)_sendBuf)[_sendBufByteOffset], muscleMin(maxBytes, (uint32) (_sendBufLength-_sendBufByteOffset))) : io_status_t(B_BAD_OBJECT);
+         MRETURN_ON_ERROR(bytesWritten);
+         if (bytesWritten.GetByteCount() <= 0) break;
+
+         _sendBufByteOffset += bytesWritten.GetByteCount();
+         totalBytesWritten += bytesWritten;
+         maxBytes -= bytesWritten.GetByteCount();
       }
    }
 
-   return io_status_t();
+   return totalBytesWritten;
 }
 
 
